@@ -218,8 +218,14 @@ def gen_surface(rng, pmax=4, rational=None):
     normalize = rng.random() < 0.4
     for d in "uv":
         p = rng.randint(1, pmax)
-        kind = rng.choice(["uniform", "mult", "mult"]) if normalize else None
-        U, kind = gc.knotvector(rng, p, kind, nint=rng.choice([0, 1, 2, 3]))
+        kind = rng.choice(["uniform", "mult", "mult", "mult", "uniform", "unclamped01"]) if normalize else None
+        if kind == "unclamped01":
+            # unclamped knot vector that is already normalised (first knot 0, last knot 1, dyadic grid): the constructors that slice
+            # knot vectors (hodographs) must not re-normalise the slices
+            m = 2 * (p + 1) + rng.choice([0, 1, 2])
+            U = [v / 64.0 for v in sorted([0, 64] + rng.sample(range(1, 64), m - 2))]
+        else:
+            U, kind = gc.knotvector(rng, p, kind, nint=rng.choice([0, 1, 2, 3]))
         out["p" + d], out["U" + d], out["kind" + d] = p, U, kind
         out["s" + d] = len(U) - p - 1
     rational = (rng.random() < 0.5) if rational is None else rational
